@@ -82,7 +82,7 @@ theorem text_read_ok_iff (f : Fld) (nx ny nz : Nat) (h : WFc f nx ny nz) (rnd : 
                                     cell := cellData f }) sc = .ok f') ↔
       ((∀ a, a < 3 → rnd (f.mesh.region.lo a) ≠ rnd (f.mesh.region.hi a)) ∧
        ∀ l, sc = some l → ∀ p ∈ l,
-         T.subOk (boundsMesh (tab 3 fun a => rnd (f.mesh.region.lo a)) (tab 3 fun a => rnd (f.mesh.region.hi a)) [nx, ny, nz])
+         T.candOk (boundsMesh (tab 3 fun a => rnd (f.mesh.region.lo a)) (tab 3 fun a => rnd (f.mesh.region.hi a)) [nx, ny, nz])
            p.2 = true) := by
   rw [fromCells_text_parts f nx ny nz h rnd sc, fromParts_ok_iff]
   have hfl : (roundArr rnd (fieldVArr f)).vals.length = natProd [nx, ny, nz] * (roundArr rnd (fieldVArr f)).ncomp := by
